@@ -343,8 +343,9 @@ void s_sockaddr() {
   arm();
   if (pre) { pchar *t = p_socket_address_get_address(pre); WRONG(!t || !strcmp(t, "172.16.254.1"), "address text is %s", t); p_free(t); }
   PSocketAddress *a = p_socket_address_new("192.168.1.7", 8080);
-  PSocketAddress *b = p_socket_address_new_any(P_SOCKET_FAMILY_INET6, 1);
-  PSocketAddress *c = p_socket_address_new_loopback(P_SOCKET_FAMILY_INET, 2);
+  PSocketAddress *b = P(0, 2) ? p_socket_address_new_any(P_SOCKET_FAMILY_INET6, 1) : p_socket_address_new("2001:db8::17", 1);     // an IPv6 literal goes through the resolver
+  PSocketAddress *c = P(1, 2) ? p_socket_address_new_loopback(P_SOCKET_FAMILY_INET, 2) : p_socket_address_new("::1", 2);
+  if (b && !P(0, 2)) { pchar *t6 = p_socket_address_get_address(b); if (t6) same("ipv6_text", 0, t6); p_free(t6); }
   pchar *s = a ? p_socket_address_get_address(a) : nullptr;
   WRONG(!s || !strcmp(s, "192.168.1.7"), "address text is '%s'", s);
   struct sockaddr_storage ss; memset(&ss, 0, sizeof ss);
@@ -561,6 +562,8 @@ void run_scenario(const Scen &sc) {
   wait_all_others();
   std::string d;
   size_t left = alloc::outstanding_since(m, &d);
+  if (kern::passthrough_open()) violate("resource_left_after_failed_alloc", sc.name, "left open after everything was freed: %s", kern::passthrough_desc().c_str());
+  if (kern::fd_count(0) || kern::mapping_count(0)) violate("resource_left_after_failed_alloc", sc.name, "descriptor or mapping left: %s %s", kern::fd_desc(0).c_str(), kern::mapping_desc(0).c_str());
   if (left) violate(C->dry ? "leak_without_failure" : "leak_after_failed_alloc", sc.name, "%zu block(s) allocated by the scenario are still allocated after everything was freed%s: %s", left,
                     C->dry ? " (no allocation failed)" : "", d.c_str());
 }
